@@ -51,7 +51,7 @@ def main(pid, argv):
     pid_modes = ["match", "plus", "differ", "unset", "garbage"]
     fds_vals = ["-", "EMPTY", "foo", "-1", "0", "1", "2", "3", "+2", "02", "1x", "99999999999999999999", "4"]
     names_vals = ["-", "EMPTY", "varlink", "varlink:x", "x:varlink", "x:varlink:y", "x:y:varlink", "varlink:varlink:x", "x:varlink:varlink", "a:b:c", "a:b", "Varlink:x",
-                  "varlink:", ":varlink", "x:y:z:varlink", "::varlink"]
+                  "varlink:", ":varlink", "x:y:z:varlink", "::varlink", "varlink.socket", "varlink.socket:x", "x:varlink.socket", "varlink.socket:varlink", "x:varlink.socket:varlink", "varlinkx:x"]
     # S = a filesystem socket whose path is also the address given to Bind (s = abstract socket, another address)
     kinds_vals = ["s", "f", "p", "-", "s,s", "s,f", "f,s", "s,s,s", "f,s,s", "s,f,s", "s,s,f", "p,s,f", "s,s,s,s", "S", "s,S", "S,s", "f,S,s"]
     if ck.replay:
@@ -66,7 +66,10 @@ def main(pid, argv):
             cases += rng.sample(full, 400)
             cases = list(dict.fromkeys(cases))
         # the address passed to Bind may name another protocol than the inherited socket: when activation succeeds it is not inspected
-        cases += [c + " tcp" for c in cases if c.split()[0] in ("match", "plus") and "S" not in c.split()[3]][:: (1 if ck.tier == "thorough" else 3)]
+        base = list(cases)
+        cases += [c + " tcp" for c in base if c.split()[0] in ("match", "plus") and "S" not in c.split()[3]][:: (1 if ck.tier == "thorough" else 3)]
+        # a second Bind in the same process after the LISTEN_* variables were removed must fall back to its own address
+        cases += [c + " rebind" for c in base if c.split()[0] in ("match", "plus") and c.split()[1] in ("1", "2") and "S" not in c.split()[3]][:: (1 if ck.tier == "thorough" else 2)]
     impl = C.run_sharded([bins["h_act"]], cases, jobs=14)
     model = V.run_model_parallel("act-run", cases)
     ck.evaluations = len(cases)
